@@ -19,7 +19,12 @@ def write_host(dirpath, names, depth=1, method=False, caller_locals=False, tag='
     lines += ['class Holder:',
               '    kind = "holder"', '',
               '    def __init__(self):',
-              '        self.tag = "h"', '',
+              '        self.tag = "h"', '']
+    if method == 'falsy_len':
+        lines += ['    def __len__(self):', '        return 0', '']
+    if method == 'falsy_bool':
+        lines += ['    def __bool__(self):', '        return False', '']
+    lines += [
               '    def meth(self%s):' % (', ' + params if params else ''),
               '        marker = 0  # @hit_m',
               '        return marker', '', '']
